@@ -1,6 +1,8 @@
 package props
 
 import (
+	"strings"
+
 	"verifharness/verif"
 )
 
@@ -71,5 +73,41 @@ func C04_NoBind() {
 	r := runBoth(src, map[string]any{"1001": verif.Int("k")})
 	verif.Assert(r.ParseErr == nil && r.Real.Err == nil && r.Real.Binding == nil, "nil binding without bind")
 	r.assertAgree("nobind")
+	verif.Reach("compared")
+}
+
+// C04_Interleaved: candidates and foreign blocks interleaved; the returned
+// []Block must stay intact whatever the bind selects.
+func C04_Interleaved() {
+	g := &c02Gen{values: map[string]any{}}
+	g.src += "def head {\n"
+	g.stmt("h = K")
+	g.src += "}\ndef t \"s1\" {\n"
+	g.stmt("f = K")
+	g.src += "}\ndef mid {\n}\ndef t \"s2\" {\n"
+	g.stmt("f = K")
+	g.src += "}\n"
+	g.src += c04Binds[verif.Choice("bind", 9)] + "\n"
+	g.src += "def tail {\n}\n"
+	r := runBoth(g.src, g.values)
+	verif.Observe("err", errClass(r.Real.Err))
+	r.assertAgree("interleaved")
+	verif.Reach("compared")
+}
+
+// C04_ManyTypes: CONCRETE INSTANCES - the bound type's constant index crosses
+// the one-byte varint range (239..300 other types defined first).
+func C04_ManyTypes() {
+	n := []int{239, 240, 241, 255, 256, 300}[verif.Choice("n", 6)]
+	src := ""
+	for i := 0; i < n; i++ {
+		src += "def t" + itoa(i) + " {\n}\n"
+	}
+	src += "def b \"x\" {\n f = 1\n}\n"
+	src += c04Binds[verif.Choice("bind", 9)] + "\n"
+	src = strings.Replace(src, "bind t", "bind b", 1)
+	r := runBoth(src, nil)
+	verif.Observe("err", errClass(r.Real.Err))
+	r.assertAgree("manytypes")
 	verif.Reach("compared")
 }
